@@ -11,7 +11,7 @@ LEVEL = "fault_enumeration"
 RULE = ("history = 1-15 PooledClient calls (legal arguments; store/fetch/multi-key/incr/touch/version/quit) over the fake "
         "network, each with at most one fault drawn per event kind (any socket-level fault or reply tampering of C01), "
         "clock advances with gaps below / at / above pool_idle_timeout; max_pool_size in {1, 2, None}; pool_idle_timeout "
-        "in {0, 5}; ignore_exc on/off. Calls may themselves take time (the virtual clock advances by a latency at every recv), so idle time measured from the checkout instead of the release is visible. A systematic part places every single fault of a dry run of each operation on the "
+        "in {0, 5} (and fractional ones - 0.5, 1.75, 2.5 s - with gaps a quarter of a second either side of the timeout and of its integer part); ignore_exc on/off. Calls may themselves take time (the virtual clock advances by a latency at every recv), so idle time measured from the checkout instead of the release is visible. A systematic part places every single fault of a dry run of each operation on the "
         "second call of a three-call history (so a healthy pooled connection exists before and a call follows), and "
         "sweeps the idle gap over {0, timeout-1, timeout, timeout+1, 3*timeout}. Oracle: after every call no pooled "
         "connection is checked out; a socket on which a fault fired, or that was used by a call that raised or swallowed "
@@ -155,11 +155,24 @@ def sweep_cases(tier, seed):
                         yield {"kind": "pooled", "cfg": cfg, "calls": [{"op": OPS[0]}, {"op": r, "advance": gap}, {"op": OPS[2], "advance": gap}, {"op": OPS[3]}]}
 
 
+def fractional_idle_cases(tier, seed):
+    """pool_idle_timeout is a number of seconds, not necessarily a whole one"""
+    for mx in (1, 2, None):
+        for idle in (0.5, 2.5, 1.75):
+            for ie in (False, True):
+                cfg = {"max_pool_size": mx, "pool_idle_timeout": idle, "ignore_exc": ie}
+                gaps = sorted({0.25, idle - 0.25, idle, idle + 0.25, int(idle) if int(idle) else 0.125, int(idle) + 0.25, int(idle) + 1, 3 * idle})
+                for g1 in gaps:
+                    for g2 in (gaps if tier == "thorough" else (gaps[0], idle + 0.25, int(idle) + 0.25)):
+                        for r in (OPS[0], OPS[2]):
+                            yield {"kind": "pooled", "cfg": cfg, "calls": [{"op": OPS[0]}, {"op": r, "advance": g1}, {"op": OPS[2], "advance": g2}, {"op": OPS[3]}]}
+
+
 def history_strategy(tier):
     fault = c01.fault_strategy(False)
     call = st.builds(lambda r, f, adv: dict({"op": r}, **({"faults": [f]} if f else {}), **({"advance": adv} if adv else {})),
-                     st.sampled_from(OPS), st.one_of(st.none(), st.none(), fault), st.sampled_from([0, 0, 1, 4, 5, 6, 20]))
-    cfg = st.fixed_dictionaries({"max_pool_size": st.sampled_from([1, 2, None]), "pool_idle_timeout": st.sampled_from([0, 5]),
+                     st.sampled_from(OPS), st.one_of(st.none(), st.none(), fault), st.sampled_from([0, 0, 1, 4, 5, 6, 20, 0.25, 0.75, 2.25, 2.75]))
+    cfg = st.fixed_dictionaries({"max_pool_size": st.sampled_from([1, 2, None]), "pool_idle_timeout": st.sampled_from([0, 5, 5, 2.5, 0.5]),
                                  "ignore_exc": st.booleans(), "default_noreply": st.booleans()})
     return st.builds(lambda c, calls, p, co, lat: {"kind": "pooled", "cfg": c, "calls": calls, "pieces": p, "coalesce": co, "latency": lat},
                      cfg, st.lists(call, min_size=2, max_size=15), st.one_of(st.none(), st.lists(st.sampled_from([1, 3, 4096]), min_size=1, max_size=3)), st.booleans(),
@@ -301,6 +314,7 @@ def check_reentrant(case, interruption=None):
 PARTS = [
     Part("re-entrant-calls", "enum", check_reentrant, cases=reentrant_cases, exhaustive=True),
     Part("fault-and-gap-sweep", "enum", check, cases=sweep_cases, exhaustive=True),
+    Part("fractional-idle-timeouts", "enum", check, cases=fractional_idle_cases, exhaustive=True),
     Part("random-histories", "hyp", check, strategy=history_strategy,
          examples={"quick": 300, "thorough": 12000}, shards={"quick": 4, "thorough": 16}),
 ]
